@@ -288,6 +288,22 @@ def run(chk):
                 m = corr.correlation_2d_integral(dt, dt, shape="square", matsubara=True)
                 if abs(np.imag(m)) > 0:
                     chk.fail("matsubara-not-real", "the Matsubara integral is not real", info)
+                # imaginary-time squares and rectangles at any position (also on / straddling the diagonal) against direct integration of
+                # the object's own imaginary-time correlation function; in imaginary time the cell is MINUS the double integral
+                # (d^2 eta / d tau^2 = -C).  Hard and gaussian cut-offs (the exponential one overflows at negative imaginary times);
+                # offset triangles are left out (DESIGN A.3, observation outside the properties)
+                if ctype != "exponential" and it % 2 == 0:
+                    mt1 = rng.choice([0.0, 0.25 * dt, dt, 2 * dt])
+                    mt2 = mt1 + rng.choice([0.5, 1.0, 2.0]) * dt
+                    for shp_, a_, b_ in (("square", mt1, mt1 + dt), ("rectangle", mt1, mt2)):
+                        gotm = complex(corr.correlation_2d_integral(dt, mt1, mt2 if shp_ == "rectangle" else None, shape=shp_, matsubara=True, epsrel=eps))
+                        fm = lambda y, x: float(np.real(pw.correlation(x - y, matsubara=True, epsrel=1e-9)))
+                        wantm = -integrate.dblquad(fm, a_, b_, lambda x: 0.0, lambda x: dt, epsabs=1e-12, epsrel=1e-8)[0]
+                        chk.search_cases += 1
+                        if abs(gotm - wantm) > 1e-5 * max(abs(wantm), 1e-9):
+                            chk.fail("matsubara-cell-vs-direct-integration", f"{type(corr).__name__}.correlation_2d_integral('{shp_}', delta={dt}, time_1={mt1}, matsubara=True) = "
+                                     f"{gotm:.6g}, minus the double integral of its imaginary-time correlation function is {wantm:.6g}",
+                                     dict(info, shape=shp_, t1=mt1, t2=mt2 if shp_ == "rectangle" else None, matsubara=True))
         except Exception as ex:
             chk.fail("correlations-raise", f"{type(corr).__name__} raises {ex!r}", info)
 
